@@ -35,6 +35,8 @@ Definition touch := (Z * Z * Z)%type.      (* instance, key, server *)
 Inductive cop :=
 | CSingle (i k : Z)            (* any single-key operation other than Del, on key k of instance i *)
 | CDel (i : Z) (ks : list Z)   (* Del(ks...) on instance i: zero, one or several keys *)
+| CDelX (i : Z) (ks : list Z)  (* DelCtx(ctx, ks...) with ctx already cancelled: no command leaves; a cache
+                                  node schedules the retry of its keys (the retry uses its own context) *)
 | CFault (s : Z) (on : bool)   (* server s rejects every keyed command / accepts them again *)
 | CTick                        (* one tick of the cleaner's timing wheel *)
 | CPopulate                    (* every key is (re)written on every server, behind the clusters' back *)
@@ -132,6 +134,17 @@ Definition del_keys (i : Z) (ks : list Z) (st : cstate) : cstate * list touch :=
                            | None => (st', [])
                            end) ks st.
 
+(* the DEL of a node could not even be sent *)
+Definition del_unsent (i s : Z) (ks : list Z) (st : cstate) : cstate * list touch :=
+  match delays with
+  | d0 :: _ => (add_pending (mkPend d0 d0 i s ks) st, [])
+  | [] => (st, [])
+  end.
+
+Definition delx_keys (i : Z) (ks : list Z) (st : cstate) : cstate * list touch :=
+  if is_cache i then seq_cmds (fun g => del_unsent i (fst g) (snd g)) (group i ks []) st
+  else (st, []).
+
 (* a pending retry whose time has come *)
 Definition fire (p : pending) (st : cstate) : cstate * list touch :=
   let ts := map (fun k => (pinst p, k, psrv p)) (pkeys p) in
@@ -157,6 +170,7 @@ Definition cstep (st : cstate) (o : cop) : cstate * list touch :=
     | None => (st, [])
     end
   | CDel i ks => del_keys i ks st
+  | CDelX i ks => delx_keys i ks st
   | CFault s on => (mkC (set_fault s on (cfaults st)) (cpend st) (cgone st) (cclean st), [])
   | CTick => seq_cmds tick_one (cpend st) (mkC (cfaults st) [] (cgone st) (cclean st))
   | CPopulate => (mkC (cfaults st) (cpend st) [] true, [])
